@@ -853,7 +853,184 @@ c_threads(void)
     }
 }
 
+/* ================================================================== interleave
+ * interleave: a fixed list of PROBES (valid operations: ES256 sign+verify, ECDH both ways, ECDH-ES and RSA-OAEP
+ * encrypt+decrypt, RS256 verify, HS256, thumbprint) is run in a fresh thread on its own; then, for every POISON (a call
+ * that is correctly refused: damaged RS256 / ES256 signature, RSA-OAEP / A128KW unwrap with the wrong key, an EC key
+ * off the curve, an oversize key, malformed base64url), in another fresh thread right after that poison.  A result may
+ * depend on the arguments only: -> "OK" | "DIFF probe=<name> alone=<r> after=<poison>:<r>" */
+typedef struct { json_t *hs, *kw, *kw2, *ec, *ec2, *rsa, *rsa2, *t_rs, *t_es, *e_rsa, *e_kw; int poison; char res[8][RLEN]; } ilv_t;
+
+static void
+ilv_probes(ilv_t *t, jose_cfg_t *cfg)
+{
+    int n = 0;
+    {
+        json_auto_t *jws = json_pack("{s:s}", "payload", "cGF5");
+        json_auto_t *pub = json_deep_copy(t->ec);
+        bool p = jose_jwk_pub(cfg, pub);
+        bool s = jose_jws_sig(cfg, jws, NULL, t->ec);
+        snprintf(t->res[n++], RLEN, "es256:%d%d%d", p, s, s && jose_jws_ver(cfg, jws, NULL, pub, false));
+    }
+    {
+        json_auto_t *pa = json_deep_copy(t->ec), *pb = json_deep_copy(t->ec2);
+        bool p = jose_jwk_pub(cfg, pa) && jose_jwk_pub(cfg, pb);
+        json_auto_t *x = jose_jwk_exc(cfg, t->ec, pb);
+        json_auto_t *y = jose_jwk_exc(cfg, t->ec2, pa);
+        snprintf(t->res[n++], RLEN, "ecdh:%d%d", p, x && y && json_equal(x, y));
+    }
+    {
+        json_auto_t *jwe = json_pack("{s:{s:s,s:s}}", "protected", "alg", "ECDH-ES+A128KW", "enc", "A128GCM");
+        json_auto_t *pub = json_deep_copy(t->ec);
+        bool e = jose_jwk_pub(cfg, pub) && jose_jwe_enc(cfg, jwe, NULL, pub, "probe", 5);
+        size_t l = 0;
+        char *pt = e ? jose_jwe_dec(cfg, jwe, NULL, t->ec, &l) : NULL;
+        snprintf(t->res[n++], RLEN, "ecdhes:%d:%.*s", e, pt ? (int) l : 3, pt ? pt : "ERR");
+        free(pt);
+    }
+    {
+        size_t l = 0;
+        char *pt = jose_jwe_dec(cfg, t->e_rsa, NULL, t->rsa, &l);
+        snprintf(t->res[n++], RLEN, "rsaoaep:%.*s", pt ? (int) l : 3, pt ? pt : "ERR");
+        free(pt);
+    }
+    snprintf(t->res[n++], RLEN, "rs256:%d", jose_jws_ver(cfg, t->t_rs, NULL, t->rsa, false));
+    {
+        json_auto_t *jws = json_pack("{s:s}", "payload", "cGF5");
+        bool s = jose_jws_sig(cfg, jws, NULL, t->hs);
+        snprintf(t->res[n++], RLEN, "hs256:%d%d", s, s && jose_jws_ver(cfg, jws, NULL, t->hs, false));
+    }
+    {
+        json_auto_t *th = jose_jwk_thp(cfg, t->ec, "S256");
+        snprintf(t->res[n++], RLEN, "thp:%s", th ? json_string_value(th) : "ERR");
+    }
+    {
+        size_t l = 0;
+        char *pt = jose_jwe_dec(cfg, t->e_kw, NULL, t->kw, &l);
+        snprintf(t->res[n++], RLEN, "a128kw:%.*s", pt ? (int) l : 3, pt ? pt : "ERR");
+        free(pt);
+    }
+}
+
+#define NPOISON 9
+static const char *poison_name[NPOISON + 1] = { "none", "rs256-damaged", "es256-damaged", "rsaoaep-wrong-key", "a128kw-wrong-key",
+                                                "ec-off-curve", "hmac-short-key", "bad-base64", "rsa-n-missing", "exc-curve-mismatch" };
+
+static void *
+ilv_main(void *p)
+{
+    ilv_t *t = p;
+    unsigned long errors = 0;
+    jose_cfg_t *cfg = quiet_cfg(&errors);
+    switch (t->poison) {
+    case 1: {
+        json_auto_t *bad = json_deep_copy(t->t_rs);
+        const char *sg = json_string_value(json_object_get(bad, "signature"));
+        char *c = strdup(sg ? sg : "AAAA");
+        c[3] = c[3] == 'A' ? 'B' : 'A';
+        json_object_set_new(bad, "signature", json_string(c));
+        free(c);
+        (void) jose_jws_ver(cfg, bad, NULL, t->rsa, false);
+        break;
+    }
+    case 2: {
+        json_auto_t *bad = json_deep_copy(t->t_es);
+        json_object_set_new(bad, "payload", json_string("dGFtcGVyZWQ"));
+        (void) jose_jws_ver(cfg, bad, NULL, t->ec, false);
+        break;
+    }
+    case 3: { size_t l = 0; free(jose_jwe_dec(cfg, t->e_rsa, NULL, t->rsa2, &l)); break; }
+    case 4: { size_t l = 0; free(jose_jwe_dec(cfg, t->e_kw, NULL, t->kw2, &l)); break; }
+    case 5: {
+        json_auto_t *k = json_deep_copy(t->ec);
+        json_object_set(k, "y", json_object_get(k, "x"));
+        json_auto_t *jws = json_pack("{s:s}", "payload", "cGF5");
+        (void) jose_jws_sig(cfg, jws, NULL, k);
+        break;
+    }
+    case 6: {
+        json_auto_t *k = json_pack("{s:s,s:s}", "kty", "oct", "k", "AAEC");
+        json_auto_t *jws = json_pack("{s:s}", "payload", "cGF5");
+        json_auto_t *tm = json_pack("{s:{s:s}}", "protected", "alg", "HS256");
+        (void) jose_jws_sig(cfg, jws, tm, k);
+        break;
+    }
+    case 7: {
+        json_auto_t *bad = json_deep_copy(t->t_es);
+        json_object_set_new(bad, "signature", json_string("***"));
+        (void) jose_jws_ver(cfg, bad, NULL, t->ec, false);
+        break;
+    }
+    case 8: {
+        json_auto_t *k = json_deep_copy(t->rsa);
+        json_object_del(k, "n");
+        (void) jose_jws_ver(cfg, t->t_rs, NULL, k, false);
+        break;
+    }
+    case 9: {
+        json_auto_t *o = gen(NULL, "{\"kty\":\"EC\",\"crv\":\"P-384\"}");
+        json_auto_t *x = jose_jwk_exc(cfg, t->ec, o);
+        (void) x;
+        break;
+    }
+    default: break;
+    }
+    ilv_probes(t, cfg);
+    jose_cfg_decref(cfg);
+    return NULL;
+}
+
+static void
+c_interleave(void)
+{
+    static ilv_t base;
+    if (!base.hs) {
+        base.hs = gen(NULL, "{\"alg\":\"HS256\"}");
+        base.kw = gen(NULL, "{\"alg\":\"A128KW\"}");
+        base.kw2 = gen(NULL, "{\"alg\":\"A128KW\"}");
+        base.ec = gen(NULL, "{\"kty\":\"EC\",\"crv\":\"P-256\"}");
+        base.ec2 = gen(NULL, "{\"kty\":\"EC\",\"crv\":\"P-256\"}");
+        base.rsa = gen(NULL, "{\"kty\":\"RSA\",\"bits\":2048}");
+        base.rsa2 = gen(NULL, "{\"kty\":\"RSA\",\"bits\":2048}");
+        base.t_rs = json_pack("{s:s}", "payload", "cGF5");
+        json_t *tm = json_pack("{s:{s:s}}", "protected", "alg", "RS256");
+        jose_jws_sig(NULL, base.t_rs, tm, base.rsa);
+        json_decref(tm);
+        base.t_es = json_pack("{s:s}", "payload", "cGF5");
+        jose_jws_sig(NULL, base.t_es, NULL, base.ec);
+        base.e_rsa = json_pack("{s:{s:s,s:s}}", "protected", "alg", "RSA-OAEP", "enc", "A128GCM");
+        jose_jwe_enc(NULL, base.e_rsa, NULL, base.rsa, "rsa", 3);
+        base.e_kw = json_pack("{s:{s:s,s:s}}", "protected", "alg", "A128KW", "enc", "A128GCM");
+        jose_jwe_enc(NULL, base.e_kw, NULL, base.kw, "kw", 2);
+    }
+    static ilv_t run[NPOISON + 1];
+    for (int i = 0; i <= NPOISON; i++) {
+        pthread_t th;
+        run[i] = base;
+        run[i].poison = i;
+        memset(run[i].res, 0, sizeof(run[i].res));
+        if (pthread_create(&th, NULL, ilv_main, &run[i]) != 0) {
+            fprintf(stderr, "harness: pthread_create failed\n");
+            exit(3);
+        }
+        pthread_join(th, NULL);
+    }
+    for (int i = 1; i <= NPOISON; i++)
+        for (int s = 0; s < 8; s++)
+            if (strcmp(run[0].res[s], run[i].res[s]) != 0) {
+                printf("DIFF probe=%s alone=%s after=%s:%s", strtok(strdup(run[0].res[s]), ":"), run[0].res[s], poison_name[i], run[i].res[s]);
+                return;
+            }
+    for (int s = 0; s < 8; s++)
+        if (strstr(run[0].res[s], "ERR") || strstr(run[0].res[s], ":0") == run[0].res[s] + strlen(run[0].res[s]) - 2) {
+            printf("PROBE-FAILS %s", run[0].res[s]);
+            return;
+        }
+    fputs("OK", stdout);
+}
+
 static const cmd_t cmds_cfg[] = {
+    { "interleave", c_interleave },
     { "cfg", c_cfg },
     { "c17mk", c_c17mk },
     { "pure", c_pure },
